@@ -21,15 +21,15 @@ hang_is_violation = False
 TIERS = {
     "quick": {"budget_s": 75, "exhaustive_len": 2, "alphabet_random": 0.4, "max_ops": 8, "size": (2, 10), "pool": (2, 3), "run_timeout": 90.0,
               "determinism_every": 40},
-    "thorough": {"budget_s": 1200, "exhaustive_len": 4, "alphabet_random": 0.2, "max_ops": 12, "size": (2, 22), "pool": (3, 5),
+    "thorough": {"budget_s": 1200, "exhaustive_len": 3, "alphabet_random": 0.5, "max_ops": 12, "size": (2, 22), "pool": (3, 5),
                  "run_timeout": 120.0, "determinism_every": 300, "determinism_max": 200},
 }
 
 RULE = ("first, bounded-exhaustively: every history of length <= 2 (quick) / <= 4 (thorough) over "
-        "the alphabet {create(f2003), create(f2008), 5 fixed valid, 5 fixed invalid programs, 2 files "
+        "the alphabet {create(f2003), create(f2008), 8 fixed valid, 5 fixed invalid programs, 2 files "
         "that INCLUDE a same-named file from different directories}, "
         "each followed by create(s); parse(x) for both standards and 4 fixed probe programs "
-        "(210 / 41370 runs; longer histories over the same alphabet are sampled, enumerated by run index); then, for the rest of the budget, one "
+        "(306 / 88740 runs at most; longer histories over the same alphabet are sampled, enumerated by run index); then, for the rest of the budget, one "
         "run = one seeded history of <=12 operations over {create(f2003|f2008|None|invalid), "
         "parse(valid_i|invalid_j, reader options, reader kind, stream fault at line k), direct "
         "rule use, fparser1 api.parse, print of an earlier tree, edit of an earlier tree, memo "
@@ -206,6 +206,84 @@ stop
 end program ks_p
 """
 
+KITCHEN_SINK_08 = """module ks8_m
+implicit none
+integer, codimension[*] :: co1
+real, contiguous, pointer :: cptr(:)
+contains
+subroutine g8(u)
+real, intent(in) :: u
+real, allocatable :: w(:), a(:)
+integer :: i, n, lun
+n = 3
+open(newunit=lun, file='in.dat', status='old')
+open(unit=10, file='a.dat')
+allocate(w(n), mold=a)
+blk: block
+integer :: sin
+sin = 2
+end block blk
+block
+real :: t
+t = cos(u)
+end block
+critical
+n = n + 1
+end critical
+do concurrent (i = 1:n)
+w(i) = i
+end do
+do 10 i = 1, 3
+10 if (i > 1) error stop 'bad'
+if (n > 3) error stop
+stop n + 1
+end subroutine g8
+end module ks8_m
+submodule (ks8_m) ks8_s
+contains
+subroutine s2()
+end subroutine s2
+end submodule ks8_s
+"""
+# relaxed fixed form: a label in columns 1-2 and text before column 7 make the reader switch to
+# free form in mid-file (reader-side state in the source-form handling)
+RELAXED_A = "      subroutine sa(x)\n      real x\n10 x = 2.0\n      end subroutine sa\n"
+RELAXED_B = ("      subroutine sb(y)\n      real y\n      y = 1.0\n20 y = 3.0 + sin(y)\n"
+             "      end subroutine sb\n")
+MULTI_USE = """module um
+integer :: a, b, c
+end module um
+subroutine us1
+use um, la => a
+use um, only: c
+use um
+use um, only: b, lb => b
+x = 1
+end subroutine us1
+subroutine us2
+use um, only: a
+use um, lc => c
+use um, only:
+x = 2
+end subroutine us2
+"""
+# one tiny program per Fortran 2008-only piece of syntax: under f2003 each must be rejected
+# whatever an f2008 parser did earlier in the same process
+F08_ONLY = [
+    "program r\ninteger :: u\nopen(newunit=u, file='x')\nend program r\n",
+    "program r\nreal, allocatable :: w(:), a(:)\nallocate(w(3), mold=a)\nend program r\n",
+    "program r\nerror stop\nend program r\n",
+    "program r\nblock\ninteger :: i\nend block\nend program r\n",
+    "program r\ncritical\nx = 1\nend critical\nend program r\n",
+    "program r\ndo concurrent (i = 1:3)\nx = i\nend do\nend program r\n",
+    "program r\nreal, contiguous, pointer :: p(:)\nend program r\n",
+    "program r\ninteger, codimension[*] :: c\nend program r\n",
+    "submodule (m) s\nend submodule s\n",
+    "program r\nstop 1 + 2\nend program r\n",
+    "program r\ndo 10 i = 1, 3\n10 if (i > 1) error stop\nend program r\n",
+    "program r\nprocedure(real), pointer :: pq => fext\nend program r\n",
+]
+
 ALPHABET_POOL = {
     "V1": "module m\nreal :: sin(3)\ncontains\nsubroutine s\nx = sin(1)\nend subroutine s\n"
           "end module m\n",
@@ -221,12 +299,20 @@ ALPHABET_POOL = {
     "I5": "subroutine s\nreal :: max(3)\ny = sin(1.0, 2.0)\nend subroutine s\n",
     "V5": KITCHEN_SINK,
     "X4": KITCHEN_SINK,
+    "V6": KITCHEN_SINK_08,
+    "V7": RELAXED_A,
+    "V8": MULTI_USE,
+    "X5": RELAXED_B,
+    "X6": MULTI_USE,
     "X1": "x = sin(y) + cos(y)\nend\n",
     "X2": "module m\ncontains\nsubroutine s\nx = sin(1) + cos(2) + max(1, 2)\n"
           "end subroutine s\nend module m\n",
     "X3": "program p\nx = max(1, 2)\nblock\ny = 1\nend block\nend program p\n",
 }
-ALPHABET = ["c03", "c08", "V1", "V2", "V3", "V4", "V5", "I1", "I2", "I3", "I4", "I5", "Fa", "Fb"]
+ALPHABET = ["c03", "c08", "V1", "V2", "V3", "V4", "V5", "V6", "V7", "V8", "I1", "I2", "I3", "I4",
+            "I5", "Fa", "Fb"]
+for _k, _t in enumerate(F08_ONLY):
+    ALPHABET_POOL["N%d" % _k] = _t
 # the fixed file system of the alphabet: two directories whose main files INCLUDE a file of the
 # same name with different content
 ALPHABET_FS = {
@@ -269,9 +355,15 @@ def _exhaustive_case(index):
         else:
             ops.append(["parse", sym, plain, "string", None])
     for std in ("f2003", "f2008"):
-        for x in ("X1", "X2", "X3", "X4"):
+        for x in ("X1", "X2", "X3", "X4", "X5", "X6"):
             ops.append(["create", std])
             ops.append(["parse", x, plain, "string", None])
+        if std == "f2003" and ("c08" in hist or "V6" in hist):
+            # an f2008 parser existed (or f2008-only text was read) earlier in this process: the
+            # f2003 parser must still reject every piece of f2008-only syntax
+            for k in range(len(F08_ONLY)):
+                ops.append(["create", std])
+                ops.append(["parse", "N%d" % k, plain, "string", None])
         for path in ("b/main.f90", "a/main.f90"):
             ops.append(["create", std])
             ops.append(["parse", path, plain, "file", None])
